@@ -100,6 +100,10 @@ def bind_args(I, fi, args, kwargs, module_frame):
 def invoke(I, fi, args, kwargs, closure_env, cls_ctx, closure):
     """call of an in-repo function: against its contract when it has one, else by executing its real body (inlined)"""
     ctx = I.ctx
+    dec = ctx.ghost.get(("decorated", fi.key))
+    if dec is not None and dec is not closure and not getattr(closure, "is_raw", False):
+        # the function as its (in-repo) decorators left it at class-definition time - set up by verify.run_decorated for this path
+        return I.call(dec, args, kwargs)
     con = I.E.contracts.get(fi.key)
     if con is not None and con.transparent:
         con = None
@@ -286,6 +290,18 @@ def eval_clause(fn, spec, views, **extra):
     return {"0": z3.BoolVal(r) if isinstance(r, bool) else r}
 
 
+def _sidecar(_hook, /, *a, **k):
+    """run a sidecar hook (emits / writes / ghost records) of a callee contract; if it does not fit the arguments this code passes
+    (a keyword the assumed contract does not know, a value of another shape), the contract does not cover the call: undecided, not a crash"""
+    try:
+        return _hook(*a, **k)
+    except (TypeError, AttributeError, KeyError, IndexError) as ex:
+        import traceback
+
+        where = traceback.extract_tb(ex.__traceback__)[-1]
+        raise Unsupported("a callee contract does not fit this call (%s: %s at %s:%d)" % (type(ex).__name__, ex, where.filename.split("/")[-1], where.lineno))
+
+
 def apply_writes(I, con, spec, views):
     """havoc the callee's frame in the caller's heap"""
     ctx = I.ctx
@@ -370,7 +386,7 @@ def apply_contract(I, con, args, kwargs, fi=None, callee_label=None):
     for lab, f in eval_clause(con.requires, spec, views).items():
         ctx.oblige("%s/requires[%s]" % (short(label), lab), f, kind="pre")
     if getattr(con, "ghost_call", None) is not None:
-        con.ghost_call(spec, ctx, **views)
+        _sidecar(con.ghost_call, spec, ctx, **views)
     if con.announce:
         # the caller's marker of the call comes BEFORE the callee's own events: the callee's clauses count their events from after it
         # (they were proved on the body, where there is no such marker)
@@ -378,10 +394,10 @@ def apply_contract(I, con, args, kwargs, fi=None, callee_label=None):
         ctx.emit("call", con.key, vals[0] if vals else None, vals[1] if len(vals) > 1 else None, vals[2] if len(vals) > 2 and isinstance(vals[2], SV) else None)
     tr_old_len = ctx.trlen
     if con.emits is not None:
-        con.emits(spec, ctx, **views)
+        _sidecar(con.emits, spec, ctx, **views)
     if con.delegate is not None:
         return con.delegate(I, **typed_bound)
-    apply_writes(I, con, spec, views)
+    _sidecar(apply_writes, I, con, spec, views)
     if con.has_events and con.emits is None and con.emits_after is None:
         # the callee may append events: havoc the trace, keeping the prefix
         ntr, nlen = fresh("tr", EvArr), fresh("trlen", z3.IntSort())
@@ -412,7 +428,7 @@ def apply_contract(I, con, args, kwargs, fi=None, callee_label=None):
         if not ctx.feasible():
             raise PathEnd()
         if con.emits_after is not None:
-            con.emits_after(post, ctx, "return", res, **pviews)
+            _sidecar(con.emits_after, post, ctx, "return", res, **pviews)
         return res
     cls = exc_class_of(I, which)
     exc = I.make_exception(cls, []) if con.exact_raises else I.sym_exception(cls, short(which))
@@ -425,7 +441,7 @@ def apply_contract(I, con, args, kwargs, fi=None, callee_label=None):
     if not ctx.feasible():
         raise PathEnd()
     if con.emits_after is not None:
-        con.emits_after(post, ctx, "raise", exc, **views_of(post, typed_bound, post.new_heap))
+        _sidecar(con.emits_after, post, ctx, "raise", exc, **views_of(post, typed_bound, post.new_heap))
     raise PyRaise(exc)
 
 
